@@ -6,7 +6,7 @@ Transcribes
 * `lena/core/sequence.py`       `Sequence.__init__` (lines 36-53), `Sequence.run` (57-77),
 * `lena/core/adapters.py`       `Run.__init__` without `run=` keyword, `Run._call_run`, `Run._fc_run`,
 * `lena/core/check_sequence_type.py` `is_fill_compute_el`,
-* `lena/core/source.py`         `Source.__init__`, `Source.__call__`,
+* `lena/core/source.py`         `Source.__init__`, `Source.__call__` (`_Tail` is `Sequence` with a no-op `_set_context`),
 * `lena/core/meta.py`           `flatten`.
 
 Flows are the streams of `LenaModel/Model/C01Stream.lean` (values yielded + how the iteration
@@ -260,7 +260,7 @@ def mkSource (args : List (Element α)) : Except Exc (Src α) :=
     | first :: rest =>
       if !(first.call || first.hasIter) then .error .lenaTypeError
       else if args.length > 1 then
-        match mkSequence rest with                           -- `Sequence(*(self._data_seq[1:]))`
+        match mkSequence rest with                           -- `_Tail(*(self._data_seq[1:]))`, a `Sequence`
         | .error err => .error err
         | .ok s => .ok { first := first, tail := some s }
       else .ok { first := first, tail := none }
